@@ -130,6 +130,11 @@ func (e *Enc) backgroundO(n int, defsOn bool, o *Obligation) string {
 		facts = e.factsFor() // before the declarations are written: evaluating a fact may declare a function
 	}
 	b.WriteString(preludeSMT)
+	if e.ixfn() {
+		// `opt index-fn 1`: element indices are written (ix offset index) so that quantifier patterns over them survive
+		// the solver's flattening of sums
+		b.WriteString("(declare-fun ix (Int Int) Int)\n(assert (forall ((a Int) (b Int)) (! (= (ix a b) (+ a b)) :pattern ((ix a b)))))\n")
+	}
 	if e.needFP {
 		b.WriteString(fpPrelude)
 	}
